@@ -110,8 +110,26 @@ def _arg(args, kwargs, i, name, default=None):
     return kwargs.get(name, default)
 
 
+def symiter_len(I, it):
+    """len() of a collection of unknown size: a natural number, positive iff non-empty; a filtered/mapped collection is no
+    longer than its source."""
+    n = it.fields.get("len")
+    if n is None:
+        n = I.ctx.fresh_int("len")
+        it.fields["len"] = n
+        I.ctx.assume(z3.And(n >= 0, (n > 0) == I.symiter_nonempty(it)))
+        par = it.fields.get("parent")
+        if isinstance(par, TheoryObj) and par.theory == "symiter":
+            I.ctx.assume(n <= symiter_len(I, par))
+            for w, inl in par.fields.get("witnesses", []):
+                pass
+    return n
+
+
 def b_len(I: Interp, args, kw):
     v = I.force(args[0])
+    if isinstance(v, TheoryObj) and v.theory == "symiter":
+        return SInt(symiter_len(I, v))
     if isinstance(v, (TheoryObj, SOpaque)):
         return I.call_method(v, "__len__", [], {})
     if isinstance(v, SObj):
@@ -396,7 +414,10 @@ def b_list(I, args, kw):
     if isinstance(v, SSeq):
         return SSeq(v.kind, v.z)
     if isinstance(v, TheoryObj) and v.theory == "symiter":
-        return TheoryObj("symiter", label=v.label, fields=v.fields)   # a copy of a collection of unknown size: same elements
+        f2 = dict(v.fields)
+        f2["appended"] = list(v.fields.get("appended", []))
+        f2["copy_of"] = v
+        return TheoryObj("symiter", label=v.label, fields=f2)   # a copy of a collection of unknown size: same elements
     if isinstance(v, SMapZ) or isinstance(v, SSetZ):
         raise Unsupported("list() of a symbolic set/map")
     return PList(I.iter_concrete(v))
@@ -1102,7 +1123,29 @@ def _opaque_eq(I, o, a, k):
     return SBool(I.ctx.fresh_bool("opaque_eq"))   # equality with a value of another kind: unknown
 
 
+def _symiter_append(I, o, a, k):
+    """append to a list of unknown size: remembered; an arbitrary element of the list is then an old element or an appended one"""
+    o.fields.setdefault("appended", []).append(a[0])
+    base_mk = o.fields.get("base_mk") or o.fields["mk"]
+    o.fields["base_mk"] = base_mk
+    ne = o.fields.get("nonempty")
+    o.fields["nonempty"] = z3.BoolVal(True)
+    o.fields.pop("len", None)
+
+    def mk(I2):
+        items = o.fields["appended"]
+        k2 = I2.ctx.choose(len(items) + 1, "symiter-elem-old-or-appended")
+        if k2 == 0:
+            if ne is not None:
+                I2.ctx.assume(ne)
+            return base_mk(I2)
+        return items[k2 - 1]
+    o.fields["mk"] = mk
+    return None
+
+
 def install(reg):
+    reg.theory_methods[("symiter", "append")] = _symiter_append
     reg.theory_methods[("pyobject", "__eq__")] = _opaque_eq
     reg.theory_methods[("pyobject", "__ne__")] = lambda I, o, a, k: SBool(z3.Not(_opaque_eq(I, o, a, k).z))
     reg.theory_methods[("symdict", "get")] = _symdict_get
